@@ -52,7 +52,8 @@ pub fn fork_run<F: FnOnce(&mut std::fs::File)>(cpu_secs: u64, wall_ms: i64, f: F
         }
         if pid == 0 {
             libc::close(fds[0]);
-            let lim = libc::rlimit { rlim_cur: cpu_secs, rlim_max: cpu_secs + 2 };
+            // hard limit left open so that a scenario can re-arm the soft limit per case (set_cpu_budget_from_now)
+            let lim = libc::rlimit { rlim_cur: cpu_secs, rlim_max: libc::RLIM_INFINITY };
             libc::setrlimit(libc::RLIMIT_CPU, &lim);
             let nocore = libc::rlimit { rlim_cur: 0, rlim_max: 0 };
             libc::setrlimit(libc::RLIMIT_CORE, &nocore);
@@ -120,5 +121,17 @@ pub fn fork_run<F: FnOnce(&mut std::fs::File)>(cpu_secs: u64, wall_ms: i64, f: F
             Exit::Code(libc::WEXITSTATUS(status))
         };
         ChildOutput { bytes: out, exit }
+    }
+}
+
+/// Re-arm the CPU budget (SIGXCPU) to `secs` seconds of CPU time from now on. Used by
+/// scenarios that run several cases in one child, so that the budget is per case.
+pub fn set_cpu_budget_from_now(secs: u64) {
+    unsafe {
+        let mut ru: libc::rusage = std::mem::zeroed();
+        libc::getrusage(libc::RUSAGE_SELF, &mut ru);
+        let used = (ru.ru_utime.tv_sec + ru.ru_stime.tv_sec) as u64 + 2;
+        let lim = libc::rlimit { rlim_cur: used + secs, rlim_max: libc::RLIM_INFINITY };
+        libc::setrlimit(libc::RLIMIT_CPU, &lim);
     }
 }
